@@ -211,7 +211,7 @@ class Ctx:
             loc = f'{f.where[0]}:{f.where[1]}' if f.where else '?'
             print(f'  {loc}: [{f.rule}] {f.construct}: {f.message}')
             print(f'VIOLATION property={self.pid} replay={path}')
-            code = 1 if code == 0 else code
+            code = 1
         ev = self.evidence(wall, len(viol), error)
         with open(os.path.join(evdir, f'{self.pid}.json'), 'w') as fh:
             json.dump(ev, fh, indent=1, default=str)
